@@ -131,13 +131,32 @@ def run_writepath(ck, prop, tier, g_small, g_sim, n_sim, crash_points, restart=T
             ck.distinct.add(vlib.beh_signature(b))
     inp = {'property': prop, 'seed': SEED, 'remote': 3, 'behaviours': bs, 'crash_points': crash_points, 'restart': restart, 'adversarial': adversarial}
     res = vlib.run_vh('writepath', inp, tag=prop + '-wp', timeout=600 if tier == 'quick' else 3000)
+    if restart:
+        # the same behaviours with the replica's cache (leveldb) and keystore in a real directory: clean close / reopen / load
+        dd = os.path.join(vlib.WORK, 'disk')
+        os.makedirs(dd, exist_ok=True)
+        dinp = dict(inp, behaviours=bs[:(len(bs) if thorough else 10)], crash_points=False, disk_dir=dd)
+        dres = vlib.run_vh('writepath', dinp, tag=prop + '-wp-disk', timeout=600 if tier == 'quick' else 3000)
+        for v in dres.get('violations', []):
+            v['detail'] = '[cache and keystore on disk] ' + v.get('detail', '')
+            v['on_disk'] = True
+        res['violations'] = res.get('violations', []) + dres.get('violations', [])
+        res['inconclusive'] = res.get('inconclusive', []) + dres.get('inconclusive', [])
+        for k in ('behaviours', 'steps', 'comparisons'):
+            res[k] = res.get(k, 0) + dres.get(k, 0)
+        res['stats']['on_disk'] = dres.get('stats', {}).get('on_disk', 0)
+        res['stats']['restarts'] = res['stats'].get('restarts', 0) + dres.get('stats', {}).get('restarts', 0)
+        ck.extra['on_disk_restarts'] = ck.extra.get('on_disk_restarts', 0) + dres.get('stats', {}).get('on_disk', 0)
     allv = res.get('violations', [])
     res['violations'] = [v for v in allv if v['kind'] in WP_KINDS[prop]]
     byid = {b['id']: b for b in bs}
 
     def payload(v):
         b = byid.get(v['behaviour'])
-        return {'command': 'writepath', 'input': dict(inp, behaviours=[b] if b else []), 'violation': v, 'kinds': sorted(WP_KINDS[prop])}
+        one = dict(inp, behaviours=[b] if b else [])
+        if v.get('on_disk'):
+            one.update(crash_points=False, disk_dir=os.path.join(vlib.WORK, 'disk'))
+        return {'command': 'writepath', 'input': one, 'violation': v, 'kinds': sorted(WP_KINDS[prop])}
     ck.add_harness(res, payload, 'writepath replay')
     if not res.get('inconclusive'):
         ck.traces_validated += res.get('behaviours', 0)
@@ -163,7 +182,7 @@ def c05(prop, tier):
     thorough = tier == 'thorough'
     ck.rule = ('for every forced behaviour of spec/WritePath.tla the peer\'s ordered effect log (block writes, cache puts) is cut at '
                'every prefix, a fresh instance is started on exactly that durable state and loaded; recovered log compared with the '
-               'acknowledgements issued before the cut; plus clean close/reopen; non-trivial = overlapping calls/batches')
+               'acknowledgements issued before the cut; plus clean close/reopen/load, also with the cache (leveldb) and keystore kept in a real directory; non-trivial = overlapping calls/batches')
     ck.assumptions = ['each persistence effect is durable once its call returns (the property\'s own assumption); effects are recorded by the simulated block store and cache']
     run_writepath(ck, prop, tier, 3, [1, 2, 3] if not thorough else [1, 2, 3, 4], 10 if not thorough else 60, crash_points=True)
     return ck.finish(level='model_checking')
